@@ -308,3 +308,45 @@ func H_C02_4_WarmSet() {
 	verif.Assert("unrelated-account-cold", !sdb.AddressInAccessList(X3))
 	verif.Assert("zero-address-cold", !sdb.AddressInAccessList(common.Address{}))
 }
+
+// H_C01_4_NodeLocalReads: what a block execution sees does not depend on node-local reads of committed state
+// interleaved with it (queries, CheckTx, simulations run on other branches of the same process): a precompile is
+// deployed on the block's state branch; then - with or without a read of the precompile list on the committed
+// (parent) context in between - an EVM built on the block's branch must expose the same contracts.
+func H_C01_4_NodeLocalReads() {
+	run := func(interleavedRead bool) (bool, int) {
+		e := env.New(Denom)
+		e.SetSupply(Denom, big.NewInt(1000))
+		_ = e.CK.GetAllCustomPrecompiledContracts(e.Ctx) // the process has served requests before
+		block, _ := e.Ctx.CacheContext()
+		addr, err := e.CK.DeployErc20CustomPrecompiledContract(block, "Other", cpctypes.Erc20CustomPrecompiledContractMeta{Symbol: "OTH", Decimals: 6, MinDenom: Denom})
+		if err != nil {
+			panic(err)
+		}
+		if interleavedRead {
+			_ = e.CK.GetAllCustomPrecompiledContracts(e.Ctx) // a query on the committed state
+			_ = e.CK.GetParams(e.Ctx)
+		}
+		sdb := e.NewStateDB(block, Coinbase)
+		ctx := sdb.GetCurrentContext()
+		to := X2
+		msg := ethtypes.NewMessage(X1, &to, 0, big.NewInt(0), 100_000, big.NewInt(0), big.NewInt(0), big.NewInt(0), []byte{1, 2, 3, 4}, nil, true)
+		evm := e.EK.NewEVM(ctx, msg, e.EVMConfig(ctx, Coinbase, big.NewInt(0)), nil, sdb)
+		addrs := evm.GetCustomPrecompiledContractsAddress()
+		found := false
+		n := 0
+		for _, a := range addrs {
+			if a == addr {
+				found = true
+			}
+			if a != (common.Address{}) {
+				n++
+			}
+		}
+		return found, n
+	}
+	f1, n1 := run(false)
+	f2, n2 := run(true)
+	verif.Assert("deployed-contract-exposed-in-its-block", f1)
+	verif.Assert("exposure-independent-of-node-local-reads", f1 == f2 && n1 == n2)
+}
